@@ -318,8 +318,11 @@ def r2_tables(ctx):
             if d[0] == "call" and d[1] == B + "Bitboard::is_white_turn":
                 for nm, blk in (("white", t["otherwise"]), ("black", t["targets"][0][1])):
                     for s in wr["blocks"][blk]["stmts"]:
-                        if s["rv"]["op"] == "use" and s["rv"]["a"][0].get("k") == "const" and s["rv"]["a"][0].get("ty") == "char":
+                        if s["rv"]["op"] == "use" and s["rv"]["a"][0].get("k") == "const" and isinstance(s["rv"]["a"][0].get("v"), str) and len(s["rv"]["a"][0]["v"]) == 1:
                             wside[nm] = s["rv"]["a"][0]["v"]
+    if not wside and rside == {"w": consts["WHITE"], "b": consts["BLACK"]}:
+        ctx.lost(rid, "the letter the FEN writer prints for the side to move")
+        return
     ok = rside == {"w": consts["WHITE"], "b": consts["BLACK"]} and wside == {"white": "w", "black": "b"}
     ctx.ob(rid, "side-letters", ok, "" if ok else "side to move: reader %s, writer %s" % (rside, wside), ctx.where(pt), sample={"reader": rside, "writer": wside})
 
